@@ -192,7 +192,7 @@ def tagpath(world, t, depth=0):
         if t[0] == "index":
             tg = tag_of(t[2])
             if tg is None:
-                return None
+                break
             tags.append(tg)
             t = t[1]
             continue
@@ -437,6 +437,9 @@ def bytelen(W, ev, t, depth=0):
         p = strip_generics(t[1])
         if name == "from_elem" and len(t[2]) == 2:
             return intval(W, ev, t[2][1])
+        if name == "concat" and len(t[2]) == 1 and t[2][0][0] == "agg" and t[2][0][1] == "array":
+            ls = [bytelen(W, ev, ev.resolve(x), depth + 1) for x in t[2][0][2]]
+            return sum(ls) if None not in ls else None
         if p.endswith("digest::Context::finish") or p.endswith("Digest::as_ref") or name == "finish":
             ctxo = t[2][0]
             init = W.obj_init(ctxo) if ctxo[0] == "obj" else None
